@@ -48,7 +48,10 @@ ASSUMPTIONS = ['exact real arithmetic in theorems (division total: x/0 = 0 side 
 RULE = ('segments: random position/orientation, lengths over 3 decades; query points: near, beyond either end, on the line, at end points, '
         'plus dyadic axis-aligned cases exactly on t=0, t=1 and distance 0; segment pairs: roughly anti-parallel with random tilt, none / partial / '
         'nested / touching overlap, same-orientation and perpendicular pairs; rigid motions with exact Pythagorean rotations; real structured '
-        'meshes with random displacement fields against plane / corner / circle obstacles. A case is non-trivial when a clamp, an end-point branch, '
+        'meshes with random displacement fields against plane / corner / circle obstacles (the same meshes are fed to the mesh-level hand model); '
+        'round 4: random points of the dyadic grid of C16_binary64_on_line_counts_as_positive (points exactly on the line, any direction with '
+        '|d_i| <= 3), parallel pairs of the same orientation (dyadic axis-aligned = bitwise equal normals, and generically rotated), facing '
+        'and conforming (node-aligned) pairs for the proposed patches. A case is non-trivial when a clamp, an end-point branch, '
         'a sign switch or a validity mask is active or within 1e-6 of switching; distinct = distinct input tuples')
 IMPORTS = ['From OV.gen Require Import Gen_Surface Gen_SmoothFunctions Gen_EdgeCpp Gen_MortarContact Gen_Levelset.',
            'From OV.model Require Import M_C16_Mortar M_C16_Mesh M_C16_Patched.']
